@@ -125,7 +125,29 @@ def run_verdict_then_close(case):
     return res
 
 
+def run_ble(case):
+    """Bluetooth proxy calls under every device answer C16 generates (wrong-order, foreign, empty, none): whatever
+    the outcome is, it is a result or an error of the library's hierarchy -- never a raw exception, never a hang."""
+    from aioesphomeapi import core
+
+    from vf.props import c16
+
+    fam = {n for n, c in vars(core).items() if isinstance(c, type) and issubclass(c, core.APIConnectionError)}
+    r = c16.run_case(case["ble"])
+    res = CaseResult(nontrivial=True, classes=["ble_calls"], info=r.info)
+    for v in r.violations:
+        sig = v.signature
+        if ":raised:" in sig or "never-finished" in sig:
+            name = sig.split(":raised:")[-1].split("-")[0] if ":raised:" in sig else ""
+            if name in fam:
+                continue
+            res.violations.append(Violation(ID, "c09:ble:" + ("raw-exception:" + name if name else "hang"), v.detail[:300]))
+    return res
+
+
 def run_case(case):
+    if case.get("kind") == "ble":
+        return run_ble(case)
     if case.get("kind") == "graceful_then_fatal":
         return run_graceful_then_fatal(case)
     if case.get("kind") == "verdict_then_close":
@@ -321,8 +343,14 @@ def _reconnect_in_stop_callback(draw, tier):
     return c
 
 
+def _ble(tier):
+    from vf.props import c16
+
+    return c16.strategy(tier).map(lambda c: {"kind": "ble", "ble": c})
+
+
 def strategy(tier):
-    return st.one_of(life.case_strategy(tier), _net_case(tier), _silence_case(tier), _first_cause_random(tier), _graceful_then_fatal_random(tier),
+    return st.one_of(_ble(tier), life.case_strategy(tier), _net_case(tier), _silence_case(tier), _first_cause_random(tier), _graceful_then_fatal_random(tier),
                      _reconnect_in_stop_callback(tier))
 
 
@@ -358,7 +386,17 @@ def _stream_cases():
             yield {"noise": noise, "login": True, "flow": "connect", "K": 32.0, "final_at": 160.0, "events": [{"do": "stream_list", "at": 64, "every": every, "n": int(100 / every)}]}
 
 
+def _ble_cases():
+    A = 0xAABBCCDDEEFF
+    for kind in ("services", "read", "read_desc", "write", "pair", "unpair", "clear", "notify"):
+        o = {"id": "op0", "kind": kind, "addr": A, "handle": 1, "t": 2, "timeout": 2, "response": True, "end": "stop"}
+        for msgs in ([{"k": "svcdone", "addr": A}], [{"k": "conn", "addr": A, "connected": True, "mtu": 23, "error": 0}], [{"k": "conn", "addr": A, "connected": False, "mtu": 0, "error": 8}],
+                     [{"k": "gatterr", "addr": A, "handle": 1, "error": 133}], [{"k": "svc", "addr": A, "h": 3}, {"k": "svcdone", "addr": A}]):
+            yield {"kind": "ble", "ble": {"noise": False, "ops": [o], "chunks": [{"t": 21, "msgs": msgs}]}}
+
+
 def enumerated(tier):
+    yield from _ble_cases()
     yield from _stream_cases()
     yield from _reconnect_cases()
     yield from _first_cause_cases(tier)
